@@ -13,7 +13,7 @@ namespace DD
 
 /-! ### `evalFileF` is `evalNodesF` with the loader's reading of the `info` column -/
 
-theorem evalFileF_eq_evalNodesF (i2p levels : List (Tok × Int)) (nodes : List DddmpNode)
+theorem evalFileF_eq_evalNodesF (i2p levels : List (DddmpTok × Int)) (nodes : List DddmpNode)
     (α : String → Bool) :
     ∀ fuel x, evalFileF i2p levels nodes α fuel x =
       evalNodesF (dddmpVarOf i2p levels) nodes α fuel x := by
@@ -35,7 +35,7 @@ theorem evalFileF_eq_evalNodesF (i2p levels : List (Tok × Int)) (nodes : List D
         | some var => simp only [ih]
 
 /-- only the reading of the labels of the listed non-terminal lines matters -/
-theorem evalNodesF_congr {varOf varOf' : Tok → Option Tok} {nodes : List DddmpNode}
+theorem evalNodesF_congr {varOf varOf' : DddmpTok → Option DddmpTok} {nodes : List DddmpNode}
     (h : ∀ n ∈ nodes, n.info ≠ .str "T" → varOf n.info = varOf' n.info) (α : String → Bool) :
     ∀ fuel x, evalNodesF varOf nodes α fuel x = evalNodesF varOf' nodes α fuel x := by
   intro fuel
@@ -131,14 +131,14 @@ theorem assertConsistent_lens {f : DddmpFile} (hc : dddmpAssertConsistent f = .o
     simp only [h4, h6] at hc ⊢))
   all_goals simp_all
 
-theorem dddmpHeader_consistent {f : DddmpFile} {i2p levels : List (Tok × Int)} {roots : List Int}
+theorem dddmpHeader_consistent {f : DddmpFile} {i2p levels : List (DddmpTok × Int)} {roots : List Int}
     (h : dddmpHeader f = .ok (i2p, levels, roots)) : dddmpAssertConsistent f = .ok () := by
   unfold dddmpHeader at h
   split at h
   · cases h
   · next u hu => cases u; exact hu
 
-theorem dddmpHeader_lengths {f : DddmpFile} {i2p levels : List (Tok × Int)} {roots : List Int}
+theorem dddmpHeader_lengths {f : DddmpFile} {i2p levels : List (DddmpTok × Int)} {roots : List Int}
     (h : dddmpHeader f = .ok (i2p, levels, roots)) {ids permids : List Int}
     (hi : f.ids = some ids) (hp : f.permids = some permids) :
     ids.length = permids.length ∧ (∀ sv, f.suppvarnames = some sv → permids.length = sv.length) ∧
@@ -159,7 +159,7 @@ theorem dddmpHeader_lengths {f : DddmpFile} {i2p levels : List (Tok × Int)} {ro
 /-! ### the loader's reading of a label is the reading of the format -/
 
 section Reading
-variable {f : DddmpFile} {i2p levels : List (Tok × Int)} {roots : List Int}
+variable {f : DddmpFile} {i2p levels : List (DddmpTok × Int)} {roots : List Int}
 
 /-- the support variable listed at position `j`, whose level `permids[j]` is one of the
 header's levels: it is the variable the header puts on that level, and `dddmpSuppName` names it -/
@@ -202,7 +202,7 @@ theorem suppVar_of_level (h : dddmpHeader f = .ok (i2p, levels, roots)) (hH : Dd
 of the header's levels) the loader's two tables and the DDDMP reading rule name the same
 variable -/
 theorem dddmpVarOf_eq_nameOf (h : dddmpHeader f = .ok (i2p, levels, roots)) (hH : DddmpHeaderOK f)
-    (hnamed : f.named = true) {info : Tok} {k : Int} (hne : info ≠ .str "T")
+    (hnamed : f.named = true) {info : DddmpTok} {k : Int} (hne : info ≠ .str "T")
     (hk : dictGet i2p info = some k) (hkl : k ∈ levels.map (·.2)) :
     ∃ var, dddmpVarOf i2p levels info = some var ∧ dddmpNameOf f info = some var := by
   obtain ⟨ids, permids, _, hi, hp, _, hI, hL, _⟩ := dddmpHeader_inv h
@@ -216,13 +216,13 @@ theorem dddmpVarOf_eq_nameOf (h : dddmpHeader f = .ok (i2p, levels, roots)) (hH 
     next hv =>
     have hv3 : f.varinfo ≠ some 3 := by rw [hv]; decide
     have hnd : ids.Nodup := by have := hH.ids hv; rw [hi] at this; exact this
-    have ht' : t = dictOf ((ids.zip permids).map fun p => (Tok.num p.1, p.2)) := by
+    have ht' : t = dictOf ((ids.zip permids).map fun p => (DddmpTok.num p.1, p.2)) := by
       simp only [pure, Except.pure, Except.ok.injEq] at ht
       exact ht.symm
-    have hkeys : (((ids.zip permids).map fun p => (Tok.num p.1, p.2)).map (·.1)).Nodup := by
+    have hkeys : (((ids.zip permids).map fun p => (DddmpTok.num p.1, p.2)).map (·.1)).Nodup := by
       rw [List.map_map]
-      have : (ids.zip permids).map ((fun x => x.1) ∘ fun p => (Tok.num p.1, p.2)) =
-          ((ids.zip permids).map Prod.fst).map Tok.num := by
+      have : (ids.zip permids).map ((fun x => x.1) ∘ fun p => (DddmpTok.num p.1, p.2)) =
+          ((ids.zip permids).map Prod.fst).map DddmpTok.num := by
         rw [List.map_map]; rfl
       rw [this, List.map_fst_zip (by omega)]
       exact nodup_map_of_inj_on _ _ (fun a _ b _ h => by cases h; rfl) hnd
@@ -239,10 +239,10 @@ theorem dddmpVarOf_eq_nameOf (h : dddmpHeader f = .ok (i2p, levels, roots)) (hH 
     next hv =>
     have hv3 : f.varinfo ≠ some 3 := by rw [hv]; decide
     have hpnd : permids.Nodup := by have := hH.permids hv3; rw [hp] at this; exact this
-    have ht' : t = dictOf (permids.map fun k => (Tok.num k, k)) := by
+    have ht' : t = dictOf (permids.map fun k => (DddmpTok.num k, k)) := by
       simp only [pure, Except.pure, Except.ok.injEq] at ht
       exact ht.symm
-    have hkeys : ((permids.map fun k => (Tok.num k, k)).map (·.1)).Nodup := by
+    have hkeys : ((permids.map fun k => (DddmpTok.num k, k)).map (·.1)).Nodup := by
       rw [List.map_map]
       exact nodup_map_of_inj_on _ _ (fun a _ b _ h => by
         simp only [Function.comp] at h; cases h; rfl) hpnd
@@ -304,7 +304,7 @@ node of the variable `var` whenever `lineVar info var`": the terminal line is th
 true, a negative number is the complement, every non-terminal line has a variable, and its
 value is `if var then [then-column] else [else-column]` (Shannon).  These clauses determine
 `ev` on every listed number. -/
-structure DddmpShannon (f : DddmpFile) (lineVar : Tok → Tok → Prop)
+structure DddmpShannon (f : DddmpFile) (lineVar : DddmpTok → DddmpTok → Prop)
     (ev : (String → Bool) → Int → Bool) : Prop where
   term : (∃ n ∈ f.nodes, n.IsTerm) → ∀ α, ev α 1 = true
   sign : ∀ α x, ev α x = ((decide (x < 0)) ^^ ev α (x.natAbs : Int))
@@ -364,7 +364,7 @@ theorem evalFormat_shannon {f : DddmpFile} (hf : f.WF) (hH : DddmpHeaderOK f)
     funext α x; exact evalFile_eq_evalFormat hf hH hnamed α x
   rw [← e]; exact h
 
-theorem DddmpShannon.reading {f : DddmpFile} {R R' : Tok → Tok → Prop}
+theorem DddmpShannon.reading {f : DddmpFile} {R R' : DddmpTok → DddmpTok → Prop}
     {ev : (String → Bool) → Int → Bool} (h : DddmpShannon f R ev)
     (hRR : ∀ info var, R info var ↔ R' info var) : DddmpShannon f R' ev :=
   ⟨h.term, h.sign, fun n hn hnt => (h.total n hn hnt).imp fun var hv => (hRR _ _).mp hv,
@@ -376,8 +376,8 @@ section Modes
 variable {f : DddmpFile}
 
 /-- `.varinfo 3`: the label is the name -/
-theorem dddmpNameOf_varinfo3 (hv : f.varinfo = some 3) {ov : List Tok}
-    (ho : f.orderedvarnames = some ov) (info var : Tok) :
+theorem dddmpNameOf_varinfo3 (hv : f.varinfo = some 3) {ov : List DddmpTok}
+    (ho : f.orderedvarnames = some ov) (info var : DddmpTok) :
     dddmpNameOf f info = some var ↔ (info = var ∧ var ∈ ov) := by
   simp only [dddmpNameOf, hv, ho, Option.getD_some]
   constructor
@@ -394,7 +394,7 @@ theorem dddmpNameOf_varinfo3 (hv : f.varinfo = some 3) {ov : List Tok}
 variable `orderedvarnames[permids[j]]` -/
 theorem dddmpNameOf_varinfo0_ordered (hv : f.varinfo = some 0) {ids permids : List Int}
     (hi : f.ids = some ids) (hp : f.permids = some permids) (hnd : ids.Nodup)
-    {ov : List Tok} (ho : f.orderedvarnames = some ov) (info var : Tok) :
+    {ov : List DddmpTok} (ho : f.orderedvarnames = some ov) (info var : DddmpTok) :
     dddmpNameOf f info = some var ↔
       ∃ (j : Nat) (i : Int) (k : Nat), info = .num i ∧ ids[j]? = some i ∧
         permids[j]? = some (k : Int) ∧ ov[k]? = some var := by
@@ -426,7 +426,7 @@ theorem dddmpNameOf_varinfo0_ordered (hv : f.varinfo = some 0) {ids permids : Li
 variable `orderedvarnames[k]` -/
 theorem dddmpNameOf_varinfo1_ordered (hv : f.varinfo = some 1) {permids : List Int}
     (hp : f.permids = some permids) (hnd : permids.Nodup)
-    {ov : List Tok} (ho : f.orderedvarnames = some ov) (info var : Tok) :
+    {ov : List DddmpTok} (ho : f.orderedvarnames = some ov) (info var : DddmpTok) :
     dddmpNameOf f info = some var ↔
       ∃ k : Nat, info = .num (k : Int) ∧ (k : Int) ∈ permids ∧ ov[k]? = some var := by
   constructor
@@ -454,8 +454,8 @@ theorem dddmpNameOf_varinfo1_ordered (hv : f.varinfo = some 1) {permids : List I
 /-- `.varinfo 0` without `.orderedvarnames`: the line labelled `ids[j]` is a node of the
 variable `suppvarnames[j]` -/
 theorem dddmpNameOf_varinfo0_supp (hv : f.varinfo = some 0) {ids : List Int}
-    (hi : f.ids = some ids) (hnd : ids.Nodup) (ho : f.orderedvarnames = none) {sv : List Tok}
-    (hs : f.suppvarnames = some sv) (info var : Tok) :
+    (hi : f.ids = some ids) (hnd : ids.Nodup) (ho : f.orderedvarnames = none) {sv : List DddmpTok}
+    (hs : f.suppvarnames = some sv) (info var : DddmpTok) :
     dddmpNameOf f info = some var ↔
       ∃ (j : Nat) (i : Int), info = .num i ∧ ids[j]? = some i ∧ sv[j]? = some var := by
   constructor
@@ -477,7 +477,7 @@ theorem dddmpNameOf_varinfo0_supp (hv : f.varinfo = some 0) {ids : List Int}
 variable `suppvarnames[j]` -/
 theorem dddmpNameOf_varinfo1_supp (hv : f.varinfo = some 1) {permids : List Int}
     (hp : f.permids = some permids) (hnd : permids.Nodup) (ho : f.orderedvarnames = none)
-    {sv : List Tok} (hs : f.suppvarnames = some sv) (info var : Tok) :
+    {sv : List DddmpTok} (hs : f.suppvarnames = some sv) (info var : DddmpTok) :
     dddmpNameOf f info = some var ↔
       ∃ (j : Nat) (k : Int), info = .num k ∧ permids[j]? = some k ∧ sv[j]? = some var := by
   constructor
@@ -512,14 +512,14 @@ theorem sortInts_of_sorted : ∀ (l : List Int), l.Pairwise (· ≤ ·) → sort
     show insertInt a (sortInts l) = a :: l
     rw [sortInts_of_sorted l h'.2, insertInt_of_le_all _ _ h'.1]
 
-theorem enumDict_vals_eq {l : List Tok} (h : l.Nodup) :
+theorem enumDict_vals_eq {l : List DddmpTok} (h : l.Nodup) :
     (enumDict l).map (·.2) = (List.range' 0 l.length).map (fun (i : Nat) => (i : Int)) := by
   rw [enumDict_eq h, List.map_map, ← List.zipIdx_map_snd 0 l, List.map_map]
   rfl
 
 /-- the variables keep the relative order of their file levels -/
-theorem DddmpLoaded.mono {levels : List (Tok × Int)} {m : Mgr} (h : DddmpLoaded levels m)
-    {var var' : Tok} {k k' : Int} {i i' : Nat} (hm : (var, k) ∈ levels) (hm' : (var', k') ∈ levels)
+theorem DddmpLoaded.mono {levels : List (DddmpTok × Int)} {m : Mgr} (h : DddmpLoaded levels m)
+    {var var' : DddmpTok} {k k' : Int} {i i' : Nat} (hm : (var, k) ∈ levels) (hm' : (var', k') ∈ levels)
     (hi : m.tbl.vars[var.show]? = some i) (hi' : m.tbl.vars[var'.show]? = some i') (hlt : k < k') :
     i < i' := by
   obtain ⟨j, hS, _, hj⟩ := h.rank var k hm
@@ -529,9 +529,9 @@ theorem DddmpLoaded.mono {levels : List (Tok × Int)} {m : Mgr} (h : DddmpLoaded
   exact sorted_index_lt (sortInts_sorted _) hS hS' hlt
 
 /-- with `.orderedvarnames`: the order of the loaded manager IS that list -/
-theorem DddmpLoaded.ordered {m : Mgr} {ov : List Tok} (h : DddmpLoaded (enumDict ov) m)
+theorem DddmpLoaded.ordered {m : Mgr} {ov : List DddmpTok} (h : DddmpLoaded (enumDict ov) m)
     (hnd : ov.Nodup) :
-    m.nvars = ov.length ∧ ∀ (k : Nat) (var : Tok), ov[k]? = some var →
+    m.nvars = ov.length ∧ ∀ (k : Nat) (var : DddmpTok), ov[k]? = some var →
       m.tbl.vars[var.show]? = some k ∧ m.tbl.l2v[k]? = some var.show := by
   constructor
   · rw [h.nvars, enumDict_eq hnd]; simp
@@ -557,7 +557,7 @@ theorem DddmpLoaded.ordered {m : Mgr} {ov : List Tok} (h : DddmpLoaded (enumDict
 
 /-- without `.orderedvarnames`: the variable of file level `k` sits at the rank of `k` among
 the sorted `.permids` -/
-theorem DddmpLoaded.supp {levels : List (Tok × Int)} {m : Mgr} (h : DddmpLoaded levels m)
+theorem DddmpLoaded.supp {levels : List (DddmpTok × Int)} {m : Mgr} (h : DddmpLoaded levels m)
     {permids : List Int} (hv : levels.map (·.2) = sortInts permids) :
     m.nvars = permids.length ∧ ∀ var k, (var, k) ∈ levels →
       ∃ i : Nat, (sortInts permids)[i]? = some k ∧ m.tbl.vars[var.show]? = some i ∧
@@ -574,13 +574,13 @@ theorem DddmpLoaded.supp {levels : List (Tok × Int)} {m : Mgr} (h : DddmpLoaded
     exact ⟨i, hS, hvv, hl⟩
 
 section OrderModes
-variable {f : DddmpFile} {i2p levels : List (Tok × Int)} {roots : List Int}
+variable {f : DddmpFile} {i2p levels : List (DddmpTok × Int)} {roots : List Int}
 
 /-- with `.orderedvarnames`: the loaded manager declares exactly that list, in that order -/
 theorem DddmpLoaded.of_ordered {m : Mgr} (h : dddmpHeader f = .ok (i2p, levels, roots))
-    (hH : DddmpHeaderOK f) {ov : List Tok} (ho : f.orderedvarnames = some ov)
+    (hH : DddmpHeaderOK f) {ov : List DddmpTok} (ho : f.orderedvarnames = some ov)
     (hL : DddmpLoaded levels m) :
-    m.nvars = ov.length ∧ ∀ (k : Nat) (var : Tok), ov[k]? = some var →
+    m.nvars = ov.length ∧ ∀ (k : Nat) (var : DddmpTok), ov[k]? = some var →
       m.tbl.vars[var.show]? = some k ∧ m.tbl.l2v[k]? = some var.show := by
   have hond : ov.Nodup := by have := hH.ordered; rw [ho] at this; exact this
   rw [levels_ordered_eq h ho] at hL
@@ -590,9 +590,9 @@ theorem DddmpLoaded.of_ordered {m : Mgr} (h : dddmpHeader f = .ok (i2p, levels, 
 of them at the rank of `permids[j]` among the `.permids` (gaps closed, relative order kept) -/
 theorem DddmpLoaded.of_supp {m : Mgr} (h : dddmpHeader f = .ok (i2p, levels, roots))
     (hH : DddmpHeaderOK f) (hv3 : f.varinfo ≠ some 3) (ho : f.orderedvarnames = none)
-    {sv : List Tok} (hs : f.suppvarnames = some sv) {permids : List Int}
+    {sv : List DddmpTok} (hs : f.suppvarnames = some sv) {permids : List Int}
     (hp : f.permids = some permids) (hL : DddmpLoaded levels m) :
-    m.nvars = permids.length ∧ ∀ (j : Nat) (var : Tok) (k : Int), sv[j]? = some var →
+    m.nvars = permids.length ∧ ∀ (j : Nat) (var : DddmpTok) (k : Int), sv[j]? = some var →
       permids[j]? = some k → ∃ i : Nat, (sortInts permids)[i]? = some k ∧
         m.tbl.vars[var.show]? = some i ∧ m.tbl.l2v[i]? = some var.show := by
   obtain ⟨ids, permids', _, hi, hp', _, _, _, _⟩ := dddmpHeader_inv h
@@ -638,9 +638,9 @@ end OrderModes
 /-- `DddmpRootsDenote` with the semantics `ev` -/
 def DddmpRootsDenoteBy (ev : (String → Bool) → Int → Bool) (f : DddmpFile) (m : Mgr) : Prop :=
   (∀ ρ ∈ f.rootids.getD [], ∃ r ∈ m.roots, m.tbl.Mem r ∧
-      ∀ α, den m.tbl r (asgOf m.tbl α) = ev α ρ) ∧
+      ∀ α, den m.tbl r (dddmpAsgOf m.tbl α) = ev α ρ) ∧
   (∀ r ∈ m.roots, ∃ ρ ∈ f.rootids.getD [],
-      ∀ α, den m.tbl r (asgOf m.tbl α) = ev α ρ)
+      ∀ α, den m.tbl r (dddmpAsgOf m.tbl α) = ev α ρ)
 
 theorem dddmpRootsDenote_iff (f : DddmpFile) (m : Mgr) :
     DddmpRootsDenote f m ↔ DddmpRootsDenoteBy (evalFile f) f m := Iff.rfl
